@@ -22,4 +22,34 @@ MUTANTS = {
         "            #[cfg(feature = \"verif\")] crate::verif::point(crate::verif::FS_CONSUME_LOCKED);"),
         (FS, "                self.release_leaked_internal();\n                ogre_sync::unlock(&self.concurrency_guard);\n                item", "                self.release_leaked_internal();\n                item"),
         (FS, "                ogre_sync::unlock(&self.concurrency_guard);\n                let maybe_no_longer_empty", "                let maybe_no_longer_empty")]},
+    # ---- C16
+    "am_recede_not_retried": {"props": ["C16", "C02"], "edits": [(AM,
+        "                #[cfg(feature = \"verif\")] crate::verif::spin(crate::verif::AM_LEAK_RECEDE_FAILED);\n            }\n        }\n    }",
+        "                else { return None }\n            }\n        }\n    }")]},
+    "fs_full_off_by_one": {"props": ["C16", "C02"], "edits": [(FS, "            if len_before < BUFFER_SIZE as u32 {\n                break unsafe { Some( (mutable_buffer.get_unchecked_mut(tail", "            if len_before < BUFFER_SIZE as u32 - 1 {\n                break unsafe { Some( (mutable_buffer.get_unchecked_mut(tail")]},
+    "zc_async_reject_leaks_slot": {"props": ["C16"], "edits": [("src/uni/channels/zero_copy/atomic.rs",
+        "        if let Some((slot, _slot_id)) = self.channel.leak_slot() {\n            let slot = setter(slot).await;",
+        "        let _leaked = self.channel.leak_slot();\n        if let Some((slot, _slot_id)) = self.channel.leak_slot() {\n            if let Some((l, _)) = _leaked { self.channel.unleak_slot_ref(l) }\n            let slot = setter(slot).await;")]},
+    # ---- C20
+    "zc_async_publishes_before_await": {"props": ["C20", "C01"], "edits": [("src/uni/channels/zero_copy/atomic.rs",
+        "            let slot = setter(slot).await;\n            let Some(len_after) = self.channel.publish_leaked_ref(slot) else {",
+        "            let published = self.channel.publish_leaked_ref(unsafe { &*(slot as *const ItemType) });\n            let _slot = setter(slot).await;\n            let Some(len_after) = published else {")]},
+    "ogre_multi_async_lock_around_await": {"props": ["C20"], "edits": [("src/multi/channels/ogre_arc/atomic.rs",
+        "        if let Some((ogre_arc_item, slot)) = OgreArc::new(&self.allocator) {\n            setter(slot).await;",
+        "        if let Some((ogre_arc_item, slot)) = OgreArc::new(&self.allocator) {\n            static L: std::sync::atomic::AtomicBool = std::sync::atomic::AtomicBool::new(false);\n            crate::ogre_std::ogre_sync::lock(&L);\n            setter(slot).await;\n            crate::ogre_std::ogre_sync::unlock(&L);")]},
+    # ---- C13 / C14
+    "pool_dealloc_publishes_twice": {"props": ["C13", "C05"], "edits": [("src/ogre_std/ogre_alloc/ogre_array_pool_allocator.rs",
+        "        self.free_list.publish_movable(slot_id);\n    }\n\n    #[inline(always)]\n    fn id_from_ref",
+        "        self.free_list.publish_movable(slot_id);\n        if slot_id == 1 { self.free_list.publish_movable(slot_id); }\n    }\n\n    #[inline(always)]\n    fn id_from_ref")]},
+    "pool_ref_from_id_off_by_one": {"props": ["C13"], "edits": [("src/ogre_std/ogre_alloc/ogre_array_pool_allocator.rs",
+        "unsafe { mutable_pool.get_unchecked_mut(slot_id as usize % POOL_SIZE) }", "unsafe { mutable_pool.get_unchecked_mut((slot_id as usize + 1) % POOL_SIZE) }")]},
+    "arc_drop_frees_at_two": {"props": ["C14", "C05"], "edits": [("src/ogre_std/ogre_alloc/ogre_arc.rs", "        if references != 1 {\n            return;\n        }", "        if references > 2 {\n            return;\n        }")]},
+    "arc_drop_nonatomic_dec": {"props": ["C14", "C05"], "edits": [("src/ogre_std/ogre_alloc/ogre_arc.rs",
+        "        let references = inner.references_count.fetch_sub(1, Release);",
+        "        let references = inner.references_count.load(Relaxed);\n        #[cfg(feature = \"verif\")] crate::verif::point(crate::verif::ARC_DROP_AFTER_DEC);\n        inner.references_count.store(references - 1, Release);")]},
+    "arc_clone_nonatomic_inc": {"props": ["C14"], "edits": [("src/ogre_std/ogre_alloc/ogre_arc.rs",
+        "        inner.references_count.fetch_add(1, Relaxed);\n        Self {",
+        "        let r = inner.references_count.load(Relaxed);\n        #[cfg(feature = \"verif\")] crate::verif::point(crate::verif::ARC_CLONE_BEFORE);\n        inner.references_count.store(r + 1, Relaxed);\n        Self {")]},
+    "unique_into_arc_drops_self": {"props": ["C14", "C05"], "edits": [("src/ogre_std/ogre_alloc/ogre_unique.rs",
+        "        let undroppable_self = std::mem::ManuallyDrop::new(self);", "        let undroppable_self = self;")]},
 }
